@@ -535,13 +535,13 @@ class Fragment:
         self.note('V-MACRO', cnt, f"local macro_rules! {name} expanded at {cnt} call sites by textual substitution of {params}")
 
     def desugar_assert(self):
-        """V-ASSERT: `assert!(E);` -> `{ let __c: bool = E; if !__c { rust_panic(); } }` where rust_panic() requires false
+        """V-ASSERT: `assert!(E);` / `debug_assert!(E);` -> `{ let __c: bool = E; if !__c { rust_panic(); } }` where rust_panic() requires false
         (so the absence of the panic is a proof obligation and Verus syntax may be used inside E)."""
         s = self._src()
         out = []
         last = 0
         cnt = 0
-        for mm in re.finditer(r'\bassert!\(', self.text):
+        for mm in re.finditer(r'\b(?:debug_)?assert!\(', self.text):
             if not s.mask[mm.start()] or mm.start() < last:
                 continue
             op = mm.end() - 1
@@ -641,6 +641,47 @@ class Fragment:
                f"            __out }}")
         self.text = self.text[:m.start()] + new + self.text[m.end():]
         self.note('V-ITER', 1, '`X.drain(R).filter|take_while(|w| F).map(|w| M).collect()` -> loop popping the whole range from the front, pushing M for the elements the adapter yields (F, M verbatim)')
+
+    def iter_flat_map_collect(self, nth=1):
+        """let D = X.into_iter().flat_map(|v| { B; res }).collect::<Vec<_>>();  ->  loop over the iterator appending the
+        Vec produced by the closure body for each element (B verbatim)."""
+        rx = re.compile(r'let (?P<d>\w+) = (?P<x>\w+)\s*\.into_iter\(\)\s*\.flat_map\(\|(?P<v>\w+)\|\s*\{(?P<b>.*?)\}\)\s*\.collect::<Vec<_>>\(\);', re.S)
+        it = list(rx.finditer(self.text))
+        if len(it) < nth:
+            raise ScanError(f"{self.what}: V-ITER into_iter/flat_map/collect chain #{nth} not found")
+        m = it[nth - 1]
+        d, xv, v, b = m.group('d'), m.group('x'), m.group('v'), m.group('b')
+        new = (f"let mut {d} = Vec::new();\n"
+               f"        let mut __it = {xv}.into_iter();\n"
+               f"        loop {{\n"
+               f"            match __it.next() {{\n"
+               f"                None => {{ break; }}\n"
+               f"                Some({v}) => {{\n"
+               f"                    /*@flat_map_item*/\n"
+               f"                    let mut __part = {{{b}}};\n"
+               f"                    {d}.append(&mut __part);\n"
+               f"                    /*@flat_map_item_end*/\n"
+               f"                }}\n"
+               f"            }}\n"
+               f"        }}\n"
+               f"        /*@flat_map_end*/")
+        self.text = self.text[:m.start()] + new + self.text[m.end():]
+        self.note('V-ITER', 1, '`let D = X.into_iter().flat_map(|v| {B}).collect::<Vec<_>>();` -> `let mut D = Vec::new(); let mut __it = X.into_iter(); loop { match __it.next() { None => break, Some(v) => { let mut __part = {B}; D.append(&mut __part); } } }` (B verbatim)')
+
+    def iter_repeat_collect(self, nth=1):
+        """(0..N).map(|_| E).collect()  ->  a block building a Vec with N copies of E."""
+        rx = re.compile(r'\(0\.\.(?P<n>\w+)\)\s*\.map\(\|_\|\s*(?P<e>[^)]*?)\)\s*\.collect\(\)', re.S)
+        it = list(rx.finditer(self.text))
+        if len(it) < nth:
+            raise ScanError(f"{self.what}: V-ITER (0..N).map(|_| E).collect() #{nth} not found")
+        m = it[nth - 1]
+        n, e = m.group('n'), m.group('e').strip()
+        new = (f"{{ let mut __v = Vec::new(); let mut __k: usize = 0;\n"
+               f"                    while __k < {n} {{ __v.push({e}); __k += 1; }}\n"
+               f"                    /*@repeat_end*/\n"
+               f"                    __v }}")
+        self.text = self.text[:m.start()] + new + self.text[m.end():]
+        self.note('V-ITER', 1, '`(0..N).map(|_| E).collect()` -> `{ let mut __v = Vec::new(); let mut __k = 0; while __k < N { __v.push(E); __k += 1; } __v }` (E verbatim)')
 
     # --- function-shaped fragments -----------------------------------------------------------
     def fn_body_open(self):
